@@ -1,5 +1,5 @@
 (* Dispatch.v — one entry point for the OCaml driver: property number -> functions. *)
-From Molt Require Import Model.Base Model.Tokenizer Check.C05 Check.C02 Check.C01 Check.C03 Check.C09 Check.C11 Check.C17 Check.C08 Check.C16 Check.C15 Check.C18 Check.C19 Check.C10 Check.C12 Check.C07 Check.C04.
+From Molt Require Import Model.Base Model.Tokenizer Check.C05 Check.C02 Check.C01 Check.C03 Check.C09 Check.C11 Check.C17 Check.C08 Check.C16 Check.C15 Check.C18 Check.C19 Check.C10 Check.C12 Check.C07 Check.C04 Check.C20.
 
 Record prop_fns := {
   pf_model_obs : term -> term;
@@ -45,6 +45,8 @@ Definition dispatch (p : N) : prop_fns :=
                pf_known := c11_known; pf_nontrivial := c11_nontrivial |}
   | 17%N => {| pf_model_obs := c17_model_obs; pf_spec_ok := c17_spec_ok;
                pf_known := c17_known; pf_nontrivial := c17_nontrivial |}
+  | 20%N => {| pf_model_obs := c20_model_obs; pf_spec_ok := c20_spec_ok;
+               pf_known := c20_known; pf_nontrivial := c20_nontrivial |}
   | _ => no_prop
   end.
 
